@@ -134,3 +134,17 @@ Proof.
   apply in_map_iff in H. destruct H as (j & Ej & _). injection Ej as <- <-.
   split; [reflexivity|]. cbn [snd] in F. apply negb_true_iff in F. apply N.eqb_neq in F. exact F.
 Qed.
+
+(* a register reported by [entry_reads] is not a parameter and reaches a read from the entry of
+   the function without being written *)
+Theorem entry_read_has_witness k arity ws r :
+  N.testbit (entry_reads k arity ws) r = true ->
+  arity <= r /\ reach (graph_of ws) r 0%nat.
+Proof.
+  unfold entry_reads. rewrite N.ldiff_spec. intro H. apply andb_true_iff in H. destruct H as [L P].
+  apply negb_true_iff in P. split.
+  - destruct (N.lt_ge_cases r arity) as [Lt|Ge]; [|exact Ge].
+    apply N.ones_spec_iff in Lt. rewrite Lt in P. discriminate.
+  - assert (S : sound (graph_of ws) (solve k (graph_of ws) (repeat 0 (length (graph_of ws))))) by (apply solve_sound, zeros_sound).
+    apply S. exact L.
+Qed.
